@@ -3,7 +3,9 @@
 import json
 import re
 
-r = json.load(open("/verif/lean/registry.json"))
+import os
+ROOT = os.path.dirname(os.path.dirname(os.path.abspath(__file__)))
+r = json.load(open(os.path.join(ROOT, "lean/registry.json")))
 rows = []
 total = 0
 for k in sorted(r):
@@ -13,10 +15,10 @@ for k in sorted(r):
     rows.append("| %s | %d | %s |" % (k, len(v["theorems"]), part))
 table = ("<!-- theorem-table-begin -->\n%d registered theorem names in all (a theorem shared by several properties is counted once per property).\n\n"
          "| id | theorems | partial / what is not proved |\n|---|---|---|\n" % total + "\n".join(rows) + "\n<!-- theorem-table-end -->")
-d = open("/verif/DESIGN.md").read()
+d = open(os.path.join(ROOT, "DESIGN.md")).read()
 if "<!-- theorem-table-begin -->" in d:
     d = re.sub(r"<!-- theorem-table-begin -->.*?<!-- theorem-table-end -->", lambda _: table, d, flags=re.S)
-    open("/verif/DESIGN.md", "w").write(d)
+    open(os.path.join(ROOT, "DESIGN.md"), "w").write(d)
     print("theorem table regenerated:", total)
 else:
     print(table)
